@@ -393,7 +393,8 @@ C07_Announced(e) ==
 
 \* --- C08 ---  (ghosts kept by whoever evaluates the predicates: pub[x] = the maps published at
 \*               epoch x, rt = number of most recent epochs that must be retrievable;
-\*               quantifier: epochs advance by one per tick)
+\*               quantifier: epochs advance by one per tick; the first tick of a history may name any epoch -
+\*               the numbering starts there, see InScopeTick)
 Retained(ep, rt) == (ep - rt + 1) .. ep
 EmptyOrErr(x) == ~x.ok \/ x.m = {}
 
@@ -416,12 +417,19 @@ C08_Resizable(e) ==
 C08_RefusedInert(e) ==
   e.act = "updateSnapshotCount" /\ e.res = "FAULT" => UNCHANGED <<epoch, count, cur, slot, v2>>
 
-\* ghost updates
+\* ghost updates.  pub is a function from epochs to the maps published there (the last PubKeep epochs are kept).
+\* C08 scope: epochs advance by one per tick; the FIRST tick of a history may name any epoch (the numbering of
+\* the history starts there: nothing was published before, so every clause of the property reads the same).
+PubKeep == 24
 PubOf(L, T) == [leg |-> PubLegacy(L), str |-> PubStruct(T)]
-PubNext(pub, e)  == IF IsTick(e) /\ e.x = epoch + 1 THEN Append(pub, PubOf(legacy', structured')) ELSE pub
+InScopeTick(pub, e) == e.x = epoch + 1 \/ DOMAIN pub = {}
+PubNext(pub, e)  == IF IsTick(e) /\ InScopeTick(pub, e)
+                    THEN [x \in {y \in DOMAIN pub : y > e.x - PubKeep} \cup {e.x} |->
+                             IF x = e.x THEN PubOf(legacy', structured') ELSE pub[x]]
+                    ELSE pub
 RtNext(rt, e)    == IF IsTick(e) THEN Min(rt + 1, count)
                     ELSE IF e.act = "updateSnapshotCount" /\ e.res = "HALT" THEN Min(rt, e.x) ELSE rt
-StepOk(ok, e)    == ok /\ ~(IsTick(e) /\ e.x # epoch + 1)        \* C08 scope: consecutive epochs
+StepOk(ok, pub, e) == ok /\ ~(IsTick(e) /\ ~InScopeTick(pub, e))
 NoResize(ok, e)  == ok /\ ~(e.act = "updateSnapshotCount" /\ e.res = "HALT")   \* C06 scope
 
 =============================================================================
